@@ -217,6 +217,14 @@ func c16store(rep *core.Report, sh shape, authMode string, mutateBodies bool) {
 	if auth {
 		hdrBase = adminHdr(rig)
 	}
+	if authMode == "admin" {
+		// malformed Authorization headers of every short length, on a read route and a write route
+		for _, h := range []string{"x", "ab", "abc", "Basi", "Basic", "Bearer", "Bearer ", "Bearer  ", "bearer", "\x00"} {
+			for _, rt := range [][2]string{{"GET", "/api/v1/chain/tip"}, {"POST", "/api/v1/access"}} {
+				reqs = append(reqs, req{rt[0], rt[1], "", "", "odd:auth=" + h})
+			}
+		}
+	}
 	if authMode == "user" {
 		// an issued (non-admin) token, presented on every request - also on the admin-only routes,
 		// where the answer must be a structured 401
@@ -239,6 +247,9 @@ func c16store(rep *core.Report, sh shape, authMode string, mutateBodies bool) {
 		}
 		if rq.CT != "" {
 			hdr["Content-Type"] = rq.CT
+		}
+		if strings.HasPrefix(rq.Class, "odd:auth=") {
+			hdr["Authorization"] = strings.TrimPrefix(rq.Class, "odd:auth=")
 		}
 		var body []byte
 		if rq.Method == "POST" {
